@@ -154,20 +154,30 @@ def optStr (o : Option (List Nat)) : List Nat :=
   | some x => x
   | none => []
 
-/-- `render_format_options`: fill, alignment, min width, `.precision` — and nothing for
-`representation`. -/
+/-- the letter `render_format_options` emits for a representation (the one `parse` reads) -/
+def reprText : Option Repr' → List Nat
+  | none => []
+  | some .debug => [63]
+  | some .binary => [98]
+  | some .octal => [111]
+  | some .hexLower => [120]
+  | some .hexUpper => [88]
+  | some .expLower => [101]
+  | some .expUpper => [69]
+
+/-- `render_format_options`: fill, alignment, min width, `.precision`, representation letter
+(the last since /repo 7549768; before that commit the representation was dropped). -/
 def render (o : Opts) : List Nat :=
   optStr o.fill ++ alignStr o.align ++ optStr (o.minWidth.map digits)
-    ++ optStr (o.precision.map (fun p => 46 :: digits p))
+    ++ optStr (o.precision.map (fun p => 46 :: digits p)) ++ reprText o.repr
 
-/-! ### Which option sets `parse` can produce (without a representation) -/
+/-! ### Which option sets `parse` can produce -/
 
 /-- A first character that none of the specific arms of `parse` claims at `Start`. -/
 def plainStart (c : Nat) : Bool := !isAlignCh c && !isDigit c && (reprOf c).isNone
 
 def wf (o : Opts) : Bool :=
-  o.repr.isNone
-  && (match o.minWidth with | some w => decide (w ≤ u32Max) | none => true)
+  (match o.minWidth with | some w => decide (w ≤ u32Max) | none => true)
   && (match o.precision with | some p => decide (p ≤ u32Max) | none => true)
   && (match o.fill with
       | none => true
@@ -175,12 +185,12 @@ def wf (o : Opts) : Bool :=
       | some [c] =>
         if o.align != .default then true
         else if c == 48 then o.minWidth.isSome          -- `08`: zero fill needs a width after it
-        else plainStart c && o.minWidth.isNone && o.precision.isNone  -- `{x:_}`: a lone fill
+        else plainStart c && o.minWidth.isNone && o.precision.isNone && o.repr.isNone -- `{x:_}`: a lone fill
       | some (c :: d :: _) =>                           -- a cluster of several code points
         plainStart c && c != 46 && !isAlignCh d
-          && (o.align != .default || (o.minWidth.isNone && o.precision.isNone)))
+          && (o.align != .default || (o.minWidth.isNone && o.precision.isNone && o.repr.isNone)))
 
-/-- Well-formed options without representation. -/
+/-- Well-formed options: the shapes `parse` can produce. -/
 def WF (o : Opts) : Prop := wf o = true
 
 instance (o : Opts) : Decidable (WF o) := inferInstanceAs (Decidable (wf o = true))
